@@ -8,7 +8,7 @@ WORK = os.path.join(ROOT, ".work")
 DRIVER = os.path.join(LEAN, ".lake", "build", "bin", "driver")
 CORR = os.path.join(HARNESS, "bin", "corr")
 CORR26 = os.path.join(HARNESS, "bin", "corr26")  # same package built with go1.26: streams that need the fake clock of testing/synctest
-BUBBLE_STREAMS = {"ket", "node", "kesw", "ask"}
+BUBBLE_STREAMS = {"ket", "node", "kesw", "ask", "fragt"}
 
 
 def corr_bin(stream):
